@@ -532,8 +532,6 @@ def run(ctx: Ctx):
         "(De Morgan + distribution both run); legacy: when NOT is applied to an AND/OR or normalisation had to "
         "distribute (result has more leaves than the input); distinctness by hash of (system, formula, form)"
     )
-    if ctx.replay:
-        return replay(ctx)
     gen_ok = ctx.regen("predicate", tr.translate)
     props_ok = ctx.build_props(extra_targets=["Model/PredCheck.vo"] + (["Model/PredCheckGen.vo"] if gen_ok else []))
     if not props_ok:
@@ -558,6 +556,8 @@ def run(ctx: Ctx):
 
     if ctx.broken and not ctx.oracle_failures:
         search(ctx)
+    # report the smallest failing formula of each kind (the replay written per signature is the first one)
+    ctx.oracle_failures.sort(key=lambda sr: (fleaves(sr[1]["f"]), len(json.dumps(sr[1]["f"]))) if sr[1].get("f") else (0, 0))
 
 
 def search(ctx: Ctx):
@@ -575,20 +575,19 @@ def search(ctx: Ctx):
                          f"implementation, oracle {'FAILED' if ctx.oracle_failures else 'held on all of them'}")
 
 
-def replay(ctx: Ctx):
-    rep = json.loads(Path(ctx.replay).read_text())
+def replay(ctx: Ctx, rep: dict):
+    """re-run exactly the recorded case on the implementation (oracle) and on the models (correspondence)"""
     st = State()
     pred, nf = Batch(), Batch()
-    if rep.get("system") == "pred":
+    if rep.get("system") == "pred" and "f" in rep:
         pred.add(rep["n"], rep["f"])
-    elif rep.get("system") == "nf":
+    elif rep.get("system") == "nf" and "f" in rep:
         nf.add(rep["n"], {"f": rep["f"], "cnf": rep["cnf"], "parse": rep.get("parse", False)})
     else:
-        ctx.log("replay file carries no single case (unproved obligation); running the normal check")
-        ctx.replay = None
+        ctx.log("replay file carries no single case (broken obligation / worker failure): running the whole check with its seed")
         return run(ctx)
     gen_ok = ctx.regen("predicate", tr.translate)
     coq_make(["Model/PredCheck.vo"] + (["Model/PredCheckGen.vo"] if gen_ok else []))
     run_impl(ctx, st, pred, nf)
     coq_side(ctx, st, gen_ok)
-    ctx.log(f"replayed {ctx.replay}: oracle failures {len(ctx.oracle_failures)}")
+    ctx.log(f"replayed {ctx.replay}: oracle failures {sorted({s for s, _ in ctx.oracle_failures})}")
